@@ -362,3 +362,933 @@ Proof.
     + apply in_all_offsets. exists t. split; [exact Ht | apply (leaf_offset_in _ _ Hx)].
     + apply in_or_app. left. apply (leaf_offset_in _ _ Hxn).
 Qed.
+
+(* ====================== mixing two versions of the leaves ====================== *)
+Definition inW (W : list N) (o : N) : bool := existsb (N.eqb o) W.
+
+Definition default_leaf (o : N) : tree := TLeaf o 0 false [] false false 0 0.
+
+(* the final (cache) version of the leaf at offset o, as flushPages writes it *)
+Definition fin_of (R : list tree) (o : N) : tree :=
+  match find (fun l => N.eqb (t_off l) o) (flat_map leaves R) with
+  | Some l => erase false l
+  | None => default_leaf o
+  end.
+
+Definition mixfun (W : list N) (fin : N -> tree) : tree -> tree :=
+  fun l => if inW W (t_off l) then fin (t_off l) else l.
+
+Definition fin_ok (fin : N -> tree) : Prop := forall o, is_leaf (fin o) /\ t_off (fin o) = o.
+
+Lemma fin_of_ok R : fin_ok (fin_of R).
+Proof.
+  intros o. unfold fin_of. destruct (find _ _) as [l|] eqn:E; [|split; [exact I | reflexivity]].
+  apply find_some in E as [Hin Ho]. apply N.eqb_eq in Ho. apply in_flat_map in Hin as (t & _ & Hl).
+  pose proof (leaves_is_leaf _ _ Hl) as Hleaf. destruct l; [|contradiction]. split; [exact I | exact Ho].
+Qed.
+
+Lemma lp_mix W fin : fin_ok fin -> lp (mixfun W fin).
+Proof.
+  intros Hf l Hl. unfold mixfun. destruct (inW W (t_off l)); [apply Hf | auto].
+Qed.
+
+(* a leaf map that only changes the leaf at offset o *)
+Definition only_at (o : N) (tg : tree -> tree) : Prop :=
+  lp tg /\ forall l, is_leaf l -> t_off l <> o -> tg l = l.
+
+Lemma only_at_touch pg k lsn g : only_at pg (touch_leaf pg k lsn g).
+Proof.
+  split; [apply lp_touch|]. intros l Hl Hne. destruct l as [off a b c hl hr ls rs|]; [|contradiction].
+  cbn [touch_leaf t_off] in *. destruct (N.eqb_spec off pg); [contradiction | reflexivity].
+Qed.
+
+Lemma only_at_ins k lsn v o : only_at o (ins_fun k lsn v o).
+Proof.
+  split; [apply lp_ins|]. intros l Hl Hne. unfold ins_fun. destruct (N.eqb_spec (t_off l) o); [contradiction | reflexivity].
+Qed.
+
+Lemma inW_false_ne W o o' : inW W o = false -> inW W o' = true -> o' <> o.
+Proof. intros A B ->. congruence. Qed.
+
+Lemma mapF_comp sg tg f : lp tg -> mapF sg (mapF tg f) = mapF (fun l => sg (tg l)) f.
+Proof. intros H. unfold mapF. rewrite map_map. apply map_ext. intros t. apply repl_comp. exact H. Qed.
+
+Lemma mapF_ext sg tg f : (forall l, is_leaf l -> sg l = tg l) -> mapF sg f = mapF tg f.
+Proof.
+  intros H. unfold mapF. apply map_ext. intros t. apply repl_ext. intros x Hx. apply H. apply (leaves_is_leaf _ _ Hx).
+Qed.
+
+(* target leaf not in W: the change and the mixing commute *)
+Lemma mix_commute W fin o tg f :
+  fin_ok fin -> only_at o tg -> inW W o = false ->
+  mapF tg (mapF (mixfun W fin) f) = mapF (mixfun W fin) (mapF tg f).
+Proof.
+  intros Hf [Hlp Hid] HW. rewrite !mapF_comp by (apply lp_mix; exact Hf) || exact Hlp.
+  apply mapF_ext. intros l Hl. unfold mixfun.
+  destruct (Hlp l Hl) as [Hl' Ho']. rewrite Ho'.
+  destruct (inW W (t_off l)) eqn:E; [|reflexivity].
+  pose proof (inW_false_ne W o (t_off l) HW E) as Hne.
+  destruct (Hf (t_off l)) as [A B]. apply Hid; [exact A | rewrite B; exact Hne].
+Qed.
+
+(* target leaf in W: the change disappears under the mixing *)
+Lemma mix_absorb W fin o tg f :
+  only_at o tg -> inW W o = true ->
+  mapF (mixfun W fin) (mapF tg f) = mapF (mixfun W fin) f.
+Proof.
+  intros [Hlp Hid] HW. rewrite mapF_comp by exact Hlp.
+  apply mapF_ext. intros l Hl. unfold mixfun.
+  destruct (Hlp l Hl) as [Hl' Ho']. rewrite Ho'.
+  destruct (inW W (t_off l)) eqn:E; [reflexivity|].
+  apply Hid; [exact Hl|]. intros Heq. rewrite Heq in E. congruence.
+Qed.
+
+(* ---------- pages of a forest with replaced leaves ---------- *)
+Lemma page_in_mapF sg f p b n : lp sg -> page_in f p b n -> page_in (mapF sg f) p b (repl sg n).
+Proof.
+  intros H (t & Ht & Hin & Hp & Hb). exists (repl sg t). split; [apply in_map; exact Ht|]. split; [|split].
+  - rewrite (repl_nodes sg t H). apply in_map. exact Hin.
+  - rewrite repl_off by exact H. exact Hp.
+  - rewrite repl_off by exact H. exact Hb.
+Qed.
+
+Lemma find_node_mapF sg f p b n :
+  lp sg -> NoDup (all_offsets f) -> find_node p f = Some (b, n) ->
+  find_node p (mapF sg f) = Some (b, repl sg n).
+Proof.
+  intros H Hn Hf. apply find_node_complete; [rewrite mapF_offsets by exact H; exact Hn|].
+  apply page_in_mapF; [exact H|]. apply find_node_sound. exact Hf.
+Qed.
+
+Lemma find_node_mapF_none sg f p :
+  lp sg -> find_node p f = None -> find_node p (mapF sg f) = None.
+Proof.
+  intros H Hf. destruct (find_node p (mapF sg f)) as [[b n]|] eqn:E; [|reflexivity]. exfalso.
+  apply find_node_sound in E as (t' & Ht' & Hin & Hp & _).
+  apply in_map_iff in Ht' as (t & <- & Ht).
+  assert (Hoff : In p (offsets_of t)).
+  { rewrite <- (repl_offsets sg t H), <- Hp. apply node_offset_in. exact Hin. }
+  clear - Hf Ht Hoff. induction f as [|a f IH]; [contradiction|]. cbn [find_node] in Hf.
+  destruct (find_in_tree p a) eqn:Ea; [discriminate|].
+  destruct Ht as [->|Ht]; [exact (find_in_tree_none _ _ Ea Hoff) | apply IH; assumption].
+Qed.
+
+Lemma leaf_node_in_leaves t : forall n, In n (nodes t) -> is_leaf n -> In n (leaves t).
+Proof.
+  induction t as [off l d cells hl hr ls rs | off l d kids rgt IHk IHr] using tree_ind2; intros n Hin Hl.
+  - exact Hin.
+  - rewrite nodes_node in Hin. rewrite leaves_node. destruct Hin as [<-|Hin]; [contradiction|].
+    apply in_app_or in Hin as [Hin|Hin]; apply in_or_app; [left|right; apply IHr; assumption].
+    apply in_kids_nodes in Hin as (sc & Hsc & Hn). unfold kids_leaves. apply in_flat_map. exists sc. split; [exact Hsc|].
+    rewrite Forall_forall in IHk. apply IHk; assumption.
+Qed.
+
+Lemma find_root_unique f t : NoDup (all_offsets f) -> In t f -> find_root (t_off t) f = Some t.
+Proof.
+  unfold find_root. induction f as [|a f IH]; intros Hn Hin; [contradiction|].
+  cbn [all_offsets flat_map] in Hn. fold (all_offsets f) in Hn.
+  apply NoDup_app_inv in Hn as (Ha & Hf & Hd). cbn [find].
+  destruct Hin as [->|Hin]; [rewrite N.eqb_refl; reflexivity|].
+  destruct (N.eqb_spec (t_off a) (t_off t)) as [E|_]; [|apply IH; assumption].
+  exfalso. apply (Hd (t_off a)); [apply node_offset_in; apply root_in_nodes|].
+  apply in_all_offsets. exists t. split; [exact Hin|]. rewrite E. apply node_offset_in. apply root_in_nodes.
+Qed.
+
+Lemma page_in_root f p n : NoDup (all_offsets f) -> page_in f p true n ->
+  In n f /\ t_off n = p /\ find_root p f = Some n /\ NoDup (offsets_of n).
+Proof.
+  intros Hn (t & Ht & Hin & Hp & Hb). symmetry in Hb. apply N.eqb_eq in Hb.
+  assert (Hndt : NoDup (offsets_of t)).
+  { clear - Hn Ht. induction f as [|a f IH]; [contradiction|].
+    cbn [all_offsets flat_map] in Hn. fold (all_offsets f) in Hn. apply NoDup_app_inv in Hn as (Ha & Hf & _).
+    destruct Ht as [->|Ht]; auto. }
+  assert (n = t) by (apply root_node_unique; auto; congruence). subst n.
+  repeat split; auto. rewrite <- Hp. apply find_root_unique; assumption.
+Qed.
+
+Lemma descend_rightmost k t : on_right_spine k t = true -> descend k t = rightmost t.
+Proof.
+  induction t as [off l d cells hl hr ls rs | off l d kids rgt IH]; intros H; [reflexivity|].
+  apply on_right_spine_node in H as [Hk Hr]. rewrite descend_node. cbn [rightmost].
+  assert (E : child_for k kids rgt = rgt).
+  { clear - Hk. induction kids as [|[s c] r IHk]; [reflexivity|]. inversion Hk as [|? ? Hs Hrest]; subst.
+    cbn [child_for fst] in *. destruct (N.ltb_spec k s); [lia | apply IHk; exact Hrest]. }
+  rewrite E. apply IH. exact Hr.
+Qed.
+
+Lemma ins_right_snd_repl sg t : forall k lsn v free,
+  lp sg -> NoDup (offsets_of t) -> sg (rightmost t) = rightmost t ->
+  snd (ins_right ML MI PS t k lsn v free) = free ->
+  snd (ins_right ML MI PS (repl sg t) k lsn v free) = free.
+Proof.
+  intros k lsn v free Hlp. revert k lsn v free.
+  induction t as [off l d cells hl hr ls rs | off l d kids rgt IH]; intros k lsn v free Hnd Hsg Hs.
+  - cbn [repl rightmost] in *. rewrite Hsg. exact Hs.
+  - cbn [rightmost] in Hsg. rewrite repl_node.
+    rewrite offsets_node in Hnd. inversion Hnd as [|? ? _ Hnd']; subst. apply NoDup_app_remove_l in Hnd'.
+    destruct (ins_right_inplace rgt k lsn v free Hnd') as (A & B & C).
+    assert (Hin : snd (ins_right ML MI PS rgt k lsn v free) = free).
+    { cbn [ins_right] in Hs. destruct (ins_right ML MI PS rgt k lsn v free) as [[r'|lft sep r'] f]; cbn [fst snd] in *; [exact Hs|].
+      exfalso. specialize (C _ _ _ eq_refl). pose proof PS_pos.
+      destruct (Nat.ltb _ MI); cbn [snd] in Hs; [lia|]. destruct (nth_error _ _) as [[? ?]|]; cbn [snd] in Hs; lia. }
+    specialize (IH k lsn v free Hnd' Hsg Hin).
+    assert (Hnd2 : NoDup (offsets_of (repl sg rgt))) by (rewrite repl_offsets by exact Hlp; exact Hnd').
+    destruct (ins_right_inplace (repl sg rgt) k lsn v free Hnd2) as (_ & B2 & _). specialize (B2 IH).
+    cbn [ins_right]. destruct (ins_right ML MI PS (repl sg rgt) k lsn v free) as [r2 f2]. cbn [fst snd] in *.
+    subst r2. exact IH.
+Qed.
+
+Lemma redo_root_move_free s o n l : nextFree (fst (redo_root_move s o n l)) = nextFree s.
+Proof. unfold redo_root_move. repeat (break_match; cbn [fst]; try reflexivity). Qed.
+
+Lemma insert_cell_has c cells : existsb (fun x => N.eqb (lc_key x) (lc_key c)) (insert_cell c cells) = true.
+Proof.
+  induction cells as [|x r IH]; cbn [insert_cell existsb].
+  - rewrite N.eqb_refl. reflexivity.
+  - destruct (N.ltb (lc_key x) (lc_key c)); cbn [existsb]; [rewrite IH; apply orb_true_r | rewrite N.eqb_refl; reflexivity].
+Qed.
+
+(* ====================== one record on the mixed store ====================== *)
+(* every leaf of f in W is "behind" its final version: LSN at most the final one, keys included *)
+Definition Mono (W : list N) (fin : N -> tree) (f : list tree) : Prop :=
+  forall t l, In t f -> In l (leaves t) -> inW W (t_off l) = true ->
+    t_lsn l <= t_lsn (fin (t_off l)) /\ (forall k, has_key k l = true -> has_key k (fin (t_off l)) = true).
+
+Lemma repl_lsn_ge W fin f t n :
+  Mono W fin f -> In t f -> In n (nodes t) -> t_lsn n <= t_lsn (repl (mixfun W fin) n).
+Proof.
+  intros Hm Ht Hin. destruct n as [off l d cells hl hr ls rs | off l d kids rgt].
+  - cbn [repl]. unfold mixfun. cbn [t_off]. destruct (inW W off) eqn:E; [|lia].
+    apply (Hm t (TLeaf off l d cells hl hr ls rs) Ht); [|exact E]. apply leaf_node_in_leaves; [exact Hin | exact I].
+  - rewrite repl_node. cbn [t_lsn]. lia.
+Qed.
+
+Lemma tree_insert_inplace_snd n k lsn v free t' :
+  NoDup (offsets_of n) -> tree_insert ML MI PS MV n k lsn v free = TOk (t', free) ->
+  snd (ins_right ML MI PS n k lsn v free) = free.
+Proof.
+  intros Hnd. unfold tree_insert.
+  destruct (key_exists k n); [discriminate|].
+  destruct (negb (on_right_spine k n)); [discriminate|].
+  destruct (Nat.ltb MV (length v)); [discriminate|].
+  destruct (ins_right_inplace n k lsn v free Hnd) as (A & B & C). pose proof PS_pos.
+  destruct (ins_right ML MI PS n k lsn v free) as [[t1|a s b] f]; cbn [fst snd] in *; intros H0; inversion H0; subst; [reflexivity|].
+  specialize (C _ _ _ eq_refl). lia.
+Qed.
+
+(* the rightmost leaf is the old version: the insert is redone on it, with the same result *)
+Lemma sim_tree_insert_out sg n k lsn v free t' :
+  lp sg -> NoDup (offsets_of n) -> tree_insert ML MI PS MV n k lsn v free = TOk (t', free) ->
+  sg (rightmost n) = rightmost n ->
+  tree_insert ML MI PS MV (repl sg n) k lsn v free =
+  TOk (repl (ins_fun k lsn v (t_off (rightmost n))) (repl sg n), free).
+Proof.
+  intros Hlp Hnd Hti Hsg.
+  destruct (tree_insert_inplace _ _ _ _ _ _ Hnd Hti) as (_ & Hke & Hsp & Hmv).
+  pose proof (tree_insert_inplace_snd _ _ _ _ _ _ Hnd Hti) as Hsnd.
+  unfold tree_insert.
+  rewrite (key_exists_repl sg n Hlp k), Hke.
+  2:{ rewrite (descend_rightmost k n Hsp), Hsg. reflexivity. }
+  rewrite repl_on_right_spine' by exact Hlp. rewrite Hsp. cbn [negb]. rewrite Hmv.
+  assert (Hnd2 : NoDup (offsets_of (repl sg n))) by (rewrite repl_offsets by exact Hlp; exact Hnd).
+  pose proof (ins_right_snd_repl sg n k lsn v free Hlp Hnd Hsg Hsnd) as Hs2.
+  destruct (ins_right_inplace (repl sg n) k lsn v free Hnd2) as (_ & B & _). specialize (B Hs2).
+  destruct (ins_right ML MI PS (repl sg n) k lsn v free) as [r2 f2]. cbn [fst snd] in *. subst r2 f2.
+  rewrite (repl_rightmost' sg n Hlp), Hsg. reflexivity.
+Qed.
+
+Lemma tree_insert_key_exists n k lsn v free : key_exists k n = true ->
+  tree_insert ML MI PS MV n k lsn v free = TErr KeyExists.
+Proof. intros H. unfold tree_insert. rewrite H. reflexivity. Qed.
+
+Lemma tree_insert_err_key n k lsn v free :
+  tree_insert ML MI PS MV n k lsn v free = TErr KeyExists -> key_exists k n = true.
+Proof.
+  unfold tree_insert. destruct (key_exists k n); [reflexivity|].
+  destruct (negb (on_right_spine k n)); [discriminate|].
+  destruct (Nat.ltb MV (length v)); [discriminate|].
+  destruct (ins_right ML MI PS n k lsn v free) as [[t1|a s b] f]; discriminate.
+Qed.
+
+(* a key the tree holds is still held after mixing in later leaf versions *)
+Lemma key_exists_mix W fin f t k :
+  fin_ok fin -> Mono W fin f -> In t f -> key_exists k t = true -> key_exists k (repl (mixfun W fin) t) = true.
+Proof.
+  intros Hf Hm Ht Hk. pose proof (lp_mix W fin Hf) as Hlp.
+  destruct (has_key k (descend k t)) eqn:E.
+  - apply key_exists_repl_true; [exact Hlp|]. unfold mixfun.
+    destruct (inW W (t_off (descend k t))) eqn:EW; [|exact E].
+    apply (Hm t (descend k t) Ht (descend_in_leaves k t) EW). exact E.
+  - apply key_exists_true_cases; assumption.
+Qed.
+
+Lemma has_key_new_leaf k lsn v l : is_leaf l -> has_key k (new_leaf k lsn v l) = true.
+Proof.
+  destruct l as [off a b c hl hr ls rs|]; [|contradiction]. intros _.
+  unfold has_key. cbn [new_leaf leaf_cells]. apply (insert_cell_has (mkLC k false v) c).
+Qed.
+
+Lemma In_mapF sg f t : In t f -> In (repl sg t) (mapF sg f).
+Proof. apply in_map. Qed.
+
+Lemma nodup_tree f t : NoDup (all_offsets f) -> In t f -> NoDup (offsets_of t).
+Proof.
+  induction f as [|a f IH]; intros Hn Ht; [contradiction|].
+  cbn [all_offsets flat_map] in Hn. fold (all_offsets f) in Hn. apply NoDup_app_inv in Hn as (Ha & Hf & _).
+  destruct Ht as [->|Ht]; auto.
+Qed.
+
+Lemma tree_of_offset_unique f t1 t2 o :
+  NoDup (all_offsets f) -> In t1 f -> In t2 f -> In o (offsets_of t1) -> In o (offsets_of t2) -> t1 = t2.
+Proof.
+  induction f as [|a f IH]; intros Hn H1 H2 O1 O2; [contradiction|].
+  cbn [all_offsets flat_map] in Hn. fold (all_offsets f) in Hn. apply NoDup_app_inv in Hn as (Ha & Hf & Hd).
+  destruct H1 as [->|H1], H2 as [->|H2]; auto.
+  - exfalso. apply (Hd o O1). apply in_all_offsets. eauto.
+  - exfalso. apply (Hd o O2). apply in_all_offsets. eauto.
+Qed.
+
+Lemma leaf_offset_unique f t1 t2 x1 x2 :
+  NoDup (all_offsets f) -> In t1 f -> In t2 f -> In x1 (leaves t1) -> In x2 (leaves t2) ->
+  t_off x1 = t_off x2 -> t1 = t2 /\ x1 = x2.
+Proof.
+  intros Hn H1 H2 L1 L2 E.
+  assert (t1 = t2).
+  { apply (tree_of_offset_unique f t1 t2 (t_off x1)); auto; [apply (leaf_offset_in _ _ L1) | rewrite E; apply (leaf_offset_in _ _ L2)]. }
+  subst t2. split; [reflexivity|].
+  apply (nodup_map_inj t_off (nodes t1)); [apply (nodup_tree f); assumption | apply leaves_sub_nodes; exact L1 | apply leaves_sub_nodes; exact L2 | exact E].
+Qed.
+
+Lemma rightmost_in_leaves n : In (rightmost n) (leaves n).
+Proof. apply leaf_node_in_leaves; [apply rightmost_in_nodes | apply rightmost_is_leaf]. Qed.
+
+Lemma sim_step W fin s g w s' :
+  fin_ok fin -> NoDup (all_offsets (forest s)) ->
+  forest g = mapF (mixfun W fin) (forest s) -> nextFree g = nextFree s ->
+  replay_one s w = RCont s' -> nextFree s' = nextFree s ->
+  Mono W fin (forest s') ->
+  exists g', replay_one g w = RCont g' /\ forest g' = mapF (mixfun W fin) (forest s') /\ nextFree g' = nextFree s'.
+Proof.
+  intros Hfin Hn Hg Hnf Hrep Hip Hmono.
+  pose proof (lp_mix W fin Hfin) as Hlp. set (sg := mixfun W fin) in *.
+  unfold replay_one in *. rewrite bump_forest in *.
+  destruct (find_node (w_page w) (forest s)) as [[b n]|] eqn:Ef; [|discriminate].
+  rewrite Hg, (find_node_mapF sg _ _ _ _ Hlp Hn Ef).
+  pose proof (find_node_sound _ _ _ _ Ef) as Hpi.
+  destruct Hpi as (t0 & Ht0 & Hin0 & Hp0 & Hb0).
+  destruct (N.leb_spec (w_lsn w) (t_lsn n)) as [Hskip|Hns].
+  { (* skipped in the original replay: skipped here too *)
+    inversion Hrep; subst s'. rewrite bump_forest in Hmono.
+    pose proof (repl_lsn_ge W fin (forest s) t0 n Hmono Ht0 Hin0) as Hge. fold sg in Hge.
+    destruct (N.leb_spec (w_lsn w) (t_lsn (repl sg n))) as [_|Hbad]; [|lia].
+    eexists. split; [reflexivity|]. rewrite !bump_forest, !bump_nextFree. auto. }
+  destruct (w_op w) eqn:Eop.
+  - (* insert *)
+    destruct b; [|discriminate]. cbn [negb] in *.
+    destruct (page_in_root (forest s) (w_page w) n Hn (ex_intro _ t0 (conj Ht0 (conj Hin0 (conj Hp0 Hb0)))))
+      as (Hnf0 & Hoffn & Hfr & Hndn).
+    rewrite bump_nextFree in *.
+    destruct (tree_insert ML MI PS MV n (w_cell w) (w_lsn w) (w_val w) (nextFree s)) as [[t' nf]|e] eqn:Eti.
+    + (* applied in the original replay *)
+      assert (Hnfeq : nf = nextFree s /\ t_off t' = w_page w).
+      { destruct (tree_insert_free_le _ _ _ _ _ _ _ Hndn Eti) as [Hle Hlt].
+        destruct (N.eqb_spec (t_off t') (w_page w)) as [E|E].
+        - inversion Hrep; subst s'. cbn [nextFree] in Hip. auto.
+        - exfalso. rewrite <- Hoffn in E. specialize (Hlt E).
+          match type of Hrep with context [redo_root_move ?a ?b0 ?c ?d] =>
+            pose proof (redo_root_move_free a b0 c d) as Hrf; destruct (redo_root_move a b0 c d) as [s2 [u|e|]] end;
+            try discriminate.
+          inversion Hrep; subst s2. cbn [fst nextFree] in Hrf. lia. }
+      destruct Hnfeq as [-> Hoff']. rewrite Hoff', N.eqb_refl in Hrep. inversion Hrep; subst s'. clear Hrep.
+      cbn [forest nextFree] in *.
+      destruct (tree_insert_inplace _ _ _ _ _ _ Hndn Eti) as (Et' & Hke & Hsp & Hmv).
+      set (o := t_off (rightmost n)) in *. set (tg := ins_fun (w_cell w) (w_lsn w) (w_val w) o) in *.
+      assert (Hs'f : replace_root (w_page w) t' (forest s) = mapF tg (forest s)).
+      { rewrite Et'. apply replace_root_mapF; [exact Hn | exact Hfr|].
+        intros t x Ht Hx Hnx. apply (proj2 (only_at_ins _ _ _ o)); [apply (leaves_is_leaf _ _ Hx)|].
+        intros Heq. apply Hnx.
+        destruct (leaf_offset_unique (forest s) t n x (rightmost n) Hn Ht Hnf0 Hx (rightmost_in_leaves n) Heq) as [-> ->].
+        apply rightmost_in_leaves. }
+      rewrite Hs'f in Hmono |- *.
+      destruct (inW W o) eqn:EW.
+      * (* the rightmost leaf is already the final version: it holds the key *)
+        assert (Hk : key_exists (w_cell w) (repl sg n) = true).
+        { apply key_exists_repl_true; [exact Hlp|].
+          rewrite (descend_rightmost _ _ Hsp). unfold sg, mixfun. fold o. rewrite EW.
+          assert (Hl' : In (tg (rightmost n)) (leaves (repl tg n))).
+          { rewrite (repl_leaves tg n (lp_ins _ _ _ _)). apply in_map.
+            apply leaf_node_in_leaves; [apply rightmost_in_nodes | apply rightmost_is_leaf]. }
+          assert (Eo : t_off (tg (rightmost n)) = o) by (apply (lp_ins _ _ _ _); apply rightmost_is_leaf).
+          destruct (Hmono (repl tg n) (tg (rightmost n)) (In_mapF tg _ _ Hnf0) Hl') as [_ Hkeys]; [rewrite Eo; exact EW|].
+          rewrite Eo in Hkeys. apply Hkeys. unfold tg, ins_fun. fold o. rewrite N.eqb_refl.
+          apply has_key_new_leaf. apply rightmost_is_leaf. }
+        assert (Hfg : mapF sg (forest s) = mapF sg (mapF tg (forest s)))
+          by (symmetry; apply (mix_absorb W fin o tg); [apply only_at_ins | exact EW]).
+        destruct (N.leb (w_lsn w) (t_lsn (repl sg n))).
+        { eexists. split; [reflexivity|]. rewrite !bump_forest, !bump_nextFree. split; [rewrite Hg; exact Hfg | exact Hnf]. }
+        rewrite (tree_insert_key_exists _ _ _ _ _ Hk).
+        eexists. split; [reflexivity|]. cbn [forest nextFree]. rewrite ?bump_forest, ?bump_nextFree.
+        split; [rewrite ?Hg; exact Hfg | exact Hnf].
+      * (* the rightmost leaf is the old version: redo *)
+        assert (Hsgr : sg (rightmost n) = rightmost n) by (unfold sg, mixfun; fold o; rewrite EW; reflexivity).
+        assert (Hlq : t_lsn (repl sg n) = t_lsn n).
+        { destruct n as [? ? ? ? ? ? ? ?|? ? ? ? ?]; [cbn [repl rightmost] in *; rewrite Hsgr; reflexivity | rewrite repl_node; reflexivity]. }
+        rewrite Hlq. destruct (N.leb_spec (w_lsn w) (t_lsn n)) as [Hbad|_]; [lia|].
+        rewrite Hnf, (sim_tree_insert_out sg n _ _ _ _ t' Hlp Hndn Eti Hsgr). fold o. fold tg.
+        rewrite repl_off by apply lp_ins. rewrite repl_off by exact Hlp. rewrite Hoffn, N.eqb_refl.
+        eexists. split; [reflexivity|]. cbn [forest nextFree]. split; [|reflexivity].
+        rewrite <- Hoffn.
+        rewrite (replace_root_mapF (t_off n) (repl sg n) (mapF sg (forest s)) tg).
+        -- apply (mix_commute W fin o tg); [exact Hfin | apply only_at_ins | exact EW].
+        -- rewrite mapF_offsets by exact Hlp. exact Hn.
+        -- rewrite <- (repl_off sg n Hlp). apply find_root_unique; [rewrite mapF_offsets by exact Hlp; exact Hn|].
+           apply In_mapF. exact Hnf0.
+        -- intros t x Ht Hx Hnx. apply (proj2 (only_at_ins _ _ _ o)); [apply (leaves_is_leaf _ _ Hx)|].
+           intros Heq. apply Hnx.
+           apply in_map_iff in Ht as (t1 & <- & Ht1).
+           rewrite (repl_leaves sg t1 Hlp) in Hx. apply in_map_iff in Hx as (x1 & <- & Hx1).
+           rewrite (repl_leaves sg n Hlp).
+           assert (Ex1 : t_off x1 = t_off (rightmost n)).
+           { unfold o in Heq. rewrite <- Heq. symmetry. apply Hlp. apply (leaves_is_leaf _ _ Hx1). }
+           destruct (leaf_offset_unique (forest s) t1 n x1 (rightmost n) Hn Ht1 Hnf0 Hx1 (rightmost_in_leaves n) Ex1) as [-> ->].
+           apply in_map. apply rightmost_in_leaves.
+    + (* the original replay tolerated "key exists" *)
+      destruct e; try discriminate. inversion Hrep; subst s'. clear Hrep. cbn [forest nextFree] in *.
+      rewrite ?bump_forest, ?bump_nextFree in *.
+      pose proof (tree_insert_err_key _ _ _ _ _ Eti) as Hk.
+      destruct (N.leb (w_lsn w) (t_lsn (repl sg n))).
+      { eexists. split; [reflexivity|]. rewrite !bump_forest, !bump_nextFree. auto. }
+      rewrite (tree_insert_key_exists (repl sg n) _ _ _ _ (key_exists_mix W fin (forest s) n _ Hfin Hmono Hnf0 Hk)).
+      eexists. split; [reflexivity|]. cbn [forest nextFree]. rewrite ?bump_forest, ?bump_nextFree. auto.
+  - (* update *)
+    destruct n as [off ll d cells hl hr ls rs|]; [|discriminate].
+    destruct (Nat.ltb MV (length (w_val w))) eqn:Emv; [discriminate|].
+    destruct (existsb _ cells) eqn:Eex; [|discriminate].
+    inversion Hrep; subst s'. clear Hrep. cbn [set_forest forest nextFree] in *. rewrite ?bump_forest in *.
+    cbn [t_off] in Hp0. subst off.
+    set (tg := touch_leaf (w_page w) (w_cell w) (w_lsn w) (fun x => mkLC (lc_key x) (lc_deleted x) (w_val w))) in *.
+    rewrite (touch_forest_mapF _ _ _ _ _ Hn) in Hmono |- *. fold tg in Hmono |- *.
+    cbn [repl].
+    change (sg (TLeaf (w_page w) ll d cells hl hr ls rs))
+      with (if inW W (w_page w) then fin (w_page w) else TLeaf (w_page w) ll d cells hl hr ls rs).
+    destruct (inW W (w_page w)) eqn:EW.
+    + (* the leaf is already the final version: skipped *)
+      assert (Hl : In (TLeaf (w_page w) ll d cells hl hr ls rs) (leaves t0)) by (apply leaf_node_in_leaves; [exact Hin0 | exact I]).
+      assert (Hl' : In (tg (TLeaf (w_page w) ll d cells hl hr ls rs)) (leaves (repl tg t0))).
+      { rewrite (repl_leaves tg t0 (lp_touch _ _ _ _)). apply in_map. exact Hl. }
+      destruct (Hmono _ _ (In_mapF tg _ _ Ht0) Hl') as [Hlsn _].
+      { unfold tg. rewrite touch_off. exact EW. }
+      unfold tg in Hlsn at 1 2. rewrite (touch_leaf_at _ _ _ _ _ _ _ _ _ _ _ _ eq_refl) in Hlsn. cbn [t_lsn t_off] in Hlsn.
+      destruct (N.leb_spec (w_lsn w) (t_lsn (fin (w_page w)))) as [_|Hbad]; [|lia].
+      eexists. split; [reflexivity|]. rewrite bump_forest, bump_nextFree. split; [|rewrite bump_nextFree; exact Hnf].
+      rewrite Hg. symmetry. apply (mix_absorb W fin (w_page w) tg); [apply only_at_touch | exact EW].
+    + cbn [t_lsn] in Hns |- *. destruct (N.leb_spec (w_lsn w) ll) as [Hbad|_]; [lia|]. rewrite Eex.
+      eexists. split; [reflexivity|]. cbn [set_forest forest nextFree]. rewrite ?bump_forest, ?bump_nextFree.
+      split; [|exact Hnf]. rewrite ?Hg.
+      rewrite touch_forest_mapF by (rewrite mapF_offsets by exact Hlp; exact Hn). fold tg.
+      apply (mix_commute W fin (w_page w) tg); [exact Hfin | apply only_at_touch | exact EW].
+  - (* delete *)
+    destruct n as [off ll d cells hl hr ls rs|]; [|discriminate].
+    destruct (existsb _ cells) eqn:Eex; [|discriminate].
+    inversion Hrep; subst s'. clear Hrep. cbn [set_forest forest nextFree] in *. rewrite ?bump_forest in *.
+    cbn [t_off] in Hp0. subst off.
+    set (tg := touch_leaf (w_page w) (w_cell w) (w_lsn w) (fun x => mkLC (lc_key x) true (lc_val x))) in *.
+    rewrite (touch_forest_mapF _ _ _ _ _ Hn) in Hmono |- *. fold tg in Hmono |- *.
+    cbn [repl].
+    change (sg (TLeaf (w_page w) ll d cells hl hr ls rs))
+      with (if inW W (w_page w) then fin (w_page w) else TLeaf (w_page w) ll d cells hl hr ls rs).
+    destruct (inW W (w_page w)) eqn:EW.
+    + assert (Hl : In (TLeaf (w_page w) ll d cells hl hr ls rs) (leaves t0)) by (apply leaf_node_in_leaves; [exact Hin0 | exact I]).
+      assert (Hl' : In (tg (TLeaf (w_page w) ll d cells hl hr ls rs)) (leaves (repl tg t0))).
+      { rewrite (repl_leaves tg t0 (lp_touch _ _ _ _)). apply in_map. exact Hl. }
+      destruct (Hmono _ _ (In_mapF tg _ _ Ht0) Hl') as [Hlsn _].
+      { unfold tg. rewrite touch_off. exact EW. }
+      unfold tg in Hlsn at 1 2. rewrite (touch_leaf_at _ _ _ _ _ _ _ _ _ _ _ _ eq_refl) in Hlsn. cbn [t_lsn t_off] in Hlsn.
+      destruct (N.leb_spec (w_lsn w) (t_lsn (fin (w_page w)))) as [_|Hbad]; [|lia].
+      eexists. split; [reflexivity|]. rewrite bump_forest, bump_nextFree. split; [|rewrite bump_nextFree; exact Hnf].
+      rewrite Hg. symmetry. apply (mix_absorb W fin (w_page w) tg); [apply only_at_touch | exact EW].
+    + cbn [t_lsn] in Hns |- *. destruct (N.leb_spec (w_lsn w) ll) as [Hbad|_]; [lia|]. rewrite Eex.
+      eexists. split; [reflexivity|]. cbn [set_forest forest nextFree]. rewrite ?bump_forest, ?bump_nextFree.
+      split; [|exact Hnf]. rewrite ?Hg.
+      rewrite touch_forest_mapF by (rewrite mapF_offsets by exact Hlp; exact Hn). fold tg.
+      apply (mix_commute W fin (w_page w) tg); [exact Hfin | apply only_at_touch | exact EW].
+Qed.
+
+(* ====================== what an in-place replay step does ====================== *)
+Definition grows (lsn : N) (o : N) (tg : tree -> tree) : Prop :=
+  only_at o tg /\
+  forall l, is_leaf l -> t_off l = o ->
+    t_lsn (tg l) = lsn /\ forall k, has_key k l = true -> has_key k (tg l) = true.
+
+Lemma insert_cell_keeps c cells k :
+  existsb (fun x => N.eqb (lc_key x) k) cells = true ->
+  existsb (fun x => N.eqb (lc_key x) k) (insert_cell c cells) = true.
+Proof.
+  induction cells as [|x r IH]; cbn [insert_cell existsb]; [discriminate|]. intros H.
+  destruct (N.ltb (lc_key x) (lc_key c)); cbn [existsb].
+  - apply orb_true_iff in H as [H|H]; [rewrite H; reflexivity | rewrite (IH H); apply orb_true_r].
+  - rewrite H. apply orb_true_r.
+Qed.
+
+Lemma map_cell_keeps k0 g cells k :
+  (forall x, lc_key (g x) = lc_key x) ->
+  existsb (fun x => N.eqb (lc_key x) k) (map_cell k0 g cells) = existsb (fun x => N.eqb (lc_key x) k) cells.
+Proof.
+  intros Hg. unfold map_cell. induction cells as [|x r IH]; [reflexivity|]. cbn [map existsb]. rewrite IH. f_equal.
+  destruct (N.eqb (lc_key x) k0); [rewrite Hg|]; reflexivity.
+Qed.
+
+Lemma grows_ins k lsn v o : grows lsn o (ins_fun k lsn v o).
+Proof.
+  split; [apply only_at_ins|]. intros l Hl Ho. unfold ins_fun. rewrite Ho, N.eqb_refl.
+  destruct l as [off a b c hl hr ls rs|]; [|contradiction]. cbn [new_leaf t_lsn]. split; [reflexivity|].
+  intros k0. unfold has_key. cbn [leaf_cells]. apply insert_cell_keeps.
+Qed.
+
+Lemma grows_touch pg k lsn g : (forall x, lc_key (g x) = lc_key x) -> grows lsn pg (touch_leaf pg k lsn g).
+Proof.
+  intros Hg. split; [apply only_at_touch|]. intros l Hl Ho.
+  destruct l as [off a b c hl hr ls rs|]; [|contradiction]. cbn [t_off] in Ho.
+  rewrite (touch_leaf_at _ _ _ _ _ _ _ _ _ _ _ _ Ho). cbn [t_lsn]. split; [reflexivity|].
+  intros k0. unfold has_key. cbn [leaf_cells]. rewrite map_cell_keeps by exact Hg. auto.
+Qed.
+
+Lemma replay_one_inplace_shape s w s' :
+  NoDup (all_offsets (forest s)) -> replay_one s w = RCont s' -> nextFree s' = nextFree s ->
+  ptRoot s' = ptRoot s /\
+  (forest s' = forest s \/ exists o tg, grows (w_lsn w) o tg /\ forest s' = mapF tg (forest s)).
+Proof.
+  intros Hn Hrep Hip. unfold replay_one in Hrep. rewrite bump_forest in Hrep.
+  destruct (find_node (w_page w) (forest s)) as [[b n]|] eqn:Ef; [|discriminate].
+  pose proof (find_node_sound _ _ _ _ Ef) as Hpi.
+  destruct (N.leb (w_lsn w) (t_lsn n)).
+  { inversion Hrep; subst s'. rewrite bump_ptRoot, bump_forest. auto. }
+  destruct (w_op w) eqn:Eop.
+  - destruct b; [|discriminate]. cbn [negb] in Hrep.
+    destruct (page_in_root (forest s) (w_page w) n Hn Hpi) as (Hnf0 & Hoffn & Hfr & Hndn).
+    rewrite bump_nextFree in Hrep.
+    destruct (tree_insert ML MI PS MV n (w_cell w) (w_lsn w) (w_val w) (nextFree s)) as [[t' nf]|e] eqn:Eti.
+    + destruct (tree_insert_free_le _ _ _ _ _ _ _ Hndn Eti) as [Hle Hlt].
+      destruct (N.eqb_spec (t_off t') (w_page w)) as [E|E].
+      * inversion Hrep; subst s'. cbn [nextFree forest ptRoot] in *. subst nf. rewrite bump_ptRoot. split; [reflexivity|].
+        destruct (tree_insert_inplace _ _ _ _ _ _ Hndn Eti) as (Et' & _).
+        right. exists (t_off (rightmost n)), (ins_fun (w_cell w) (w_lsn w) (w_val w) (t_off (rightmost n))).
+        split; [apply grows_ins|]. rewrite Et'. apply replace_root_mapF; [exact Hn | exact Hfr|].
+        intros t x Ht Hx Hnx. apply (proj2 (only_at_ins _ _ _ (t_off (rightmost n)))); [apply (leaves_is_leaf _ _ Hx)|].
+        intros Heq. apply Hnx.
+        destruct (leaf_offset_unique (forest s) t n x (rightmost n) Hn Ht Hnf0 Hx (rightmost_in_leaves n) Heq) as [-> ->].
+        apply rightmost_in_leaves.
+      * exfalso. rewrite <- Hoffn in E. specialize (Hlt E).
+        match type of Hrep with context [redo_root_move ?a ?b0 ?c ?d] =>
+          pose proof (redo_root_move_free a b0 c d) as Hrf; destruct (redo_root_move a b0 c d) as [s2 [u|e|]] end;
+          try discriminate.
+        inversion Hrep; subst s2. cbn [fst nextFree] in Hrf. lia.
+    + destruct e; try discriminate. inversion Hrep; subst s'. cbn [forest ptRoot]. rewrite ?bump_forest, ?bump_ptRoot. auto.
+  - destruct n as [off ll d cells hl hr ls rs|]; [|discriminate].
+    destruct (Nat.ltb MV (length (w_val w))); [discriminate|].
+    destruct (existsb _ cells); [|discriminate].
+    inversion Hrep; subst s'. cbn [set_forest forest ptRoot]. rewrite ?bump_forest, ?bump_ptRoot. split; [reflexivity|].
+    right. exists (w_page w), (touch_leaf (w_page w) (w_cell w) (w_lsn w) (fun x => mkLC (lc_key x) (lc_deleted x) (w_val w))).
+    split; [apply grows_touch; reflexivity|]. apply touch_forest_mapF. exact Hn.
+  - destruct n as [off ll d cells hl hr ls rs|]; [|discriminate].
+    destruct (existsb _ cells); [|discriminate].
+    inversion Hrep; subst s'. cbn [set_forest forest ptRoot]. rewrite ?bump_forest, ?bump_ptRoot. split; [reflexivity|].
+    right. exists (w_page w), (touch_leaf (w_page w) (w_cell w) (w_lsn w) (fun x => mkLC (lc_key x) true (lc_val x))).
+    split; [apply grows_touch; reflexivity|]. apply touch_forest_mapF. exact Hn.
+Qed.
+
+(* replay never lowers the allocation frontier *)
+Lemma replay_one_free_mono s w s' :
+  NoDup (all_offsets (forest s)) -> replay_one s w = RCont s' -> nextFree s <= nextFree s'.
+Proof.
+  intros Hn Hrep. unfold replay_one in Hrep. rewrite bump_forest in Hrep.
+  destruct (find_node (w_page w) (forest s)) as [[b n]|] eqn:Ef; [|discriminate].
+  pose proof (find_node_sound _ _ _ _ Ef) as Hpi.
+  destruct (N.leb (w_lsn w) (t_lsn n)).
+  { inversion Hrep; subst s'. rewrite ?bump_nextFree. lia. }
+  destruct (w_op w) eqn:Eop.
+  - destruct b; [|discriminate]. cbn [negb] in Hrep.
+    destruct (page_in_root (forest s) (w_page w) n Hn Hpi) as (Hnf0 & Hoffn & Hfr & Hndn).
+    rewrite bump_nextFree in Hrep.
+    destruct (tree_insert ML MI PS MV n (w_cell w) (w_lsn w) (w_val w) (nextFree s)) as [[t' nf]|e] eqn:Eti.
+    + destruct (tree_insert_free_le _ _ _ _ _ _ _ Hndn Eti) as [Hle _].
+      destruct (N.eqb (t_off t') (w_page w)); [inversion Hrep; subst s'; exact Hle|].
+      match type of Hrep with context [redo_root_move ?a ?b0 ?c ?d] =>
+        pose proof (redo_root_move_free a b0 c d) as Hrf; destruct (redo_root_move a b0 c d) as [s2 [u|e|]] end;
+        try discriminate.
+      inversion Hrep; subst s2. cbn [fst nextFree] in Hrf. lia.
+    + destruct e; try discriminate. inversion Hrep; subst s'. cbn [nextFree]. rewrite ?bump_nextFree. lia.
+  - destruct n as [off ll d cells hl hr ls rs|]; [|discriminate].
+    destruct (Nat.ltb MV (length (w_val w))); [discriminate|].
+    destruct (existsb _ cells); [|discriminate].
+    inversion Hrep; subst s'. cbn [set_forest nextFree]. rewrite ?bump_nextFree. lia.
+  - destruct n as [off ll d cells hl hr ls rs|]; [|discriminate].
+    destruct (existsb _ cells); [|discriminate].
+    inversion Hrep; subst s'. cbn [set_forest nextFree]. rewrite ?bump_nextFree. lia.
+Qed.
+
+(* ====================== leaves only move forward ====================== *)
+(* the record's LSN is above every page LSN of the store (the LSN discipline for new records) *)
+Definition fresh (s : store) (w : walentry) : Prop :=
+  Forall (fun t => Forall (fun n => t_lsn n < w_lsn w) (nodes t)) (forest s).
+
+Fixpoint fresh_run (s : store) (ws : list walentry) : Prop :=
+  match ws with
+  | [] => True
+  | w :: rest => fresh s w /\ match replay_one s w with RCont s1 => fresh_run s1 rest | _ => True end
+  end.
+
+Definition leq_leaves (f f' : list tree) : Prop :=
+  forall t l, In t f -> In l (leaves t) ->
+  exists t' l', In t' f' /\ In l' (leaves t') /\ t_off l' = t_off l /\ t_lsn l <= t_lsn l' /\
+                forall k, has_key k l = true -> has_key k l' = true.
+
+Lemma leq_leaves_refl f : leq_leaves f f.
+Proof. intros t l Ht Hl. exists t, l. repeat split; auto. lia. Qed.
+
+Lemma leq_leaves_trans f g h : leq_leaves f g -> leq_leaves g h -> leq_leaves f h.
+Proof.
+  intros A B t l Ht Hl. destruct (A t l Ht Hl) as (t1 & l1 & H1 & H2 & H3 & H4 & H5).
+  destruct (B t1 l1 H1 H2) as (t2 & l2 & G1 & G2 & G3 & G4 & G5).
+  exists t2, l2. repeat split; auto; [congruence | lia].
+Qed.
+
+Lemma leq_leaves_step s w s' :
+  NoDup (all_offsets (forest s)) -> replay_one s w = RCont s' -> nextFree s' = nextFree s -> fresh s w ->
+  leq_leaves (forest s) (forest s').
+Proof.
+  intros Hn Hrep Hip Hfr. destruct (replay_one_inplace_shape s w s' Hn Hrep Hip) as [_ [E|(o & tg & [[Hlp Hid] Hg] & E)]].
+  - rewrite E. apply leq_leaves_refl.
+  - rewrite E. intros t l Ht Hl. pose proof (leaves_is_leaf _ _ Hl) as Hleaf.
+    exists (repl tg t), (tg l). split; [apply In_mapF; exact Ht|].
+    split; [rewrite (repl_leaves tg t Hlp); apply in_map; exact Hl|].
+    split; [apply Hlp; exact Hleaf|].
+    destruct (N.eq_dec (t_off l) o) as [Eo|Eo].
+    + destruct (Hg l Hleaf Eo) as [A B]. split; [|exact B]. rewrite A.
+      unfold fresh in Hfr. rewrite Forall_forall in Hfr. specialize (Hfr t Ht). rewrite Forall_forall in Hfr.
+      apply N.lt_le_incl. apply Hfr. apply leaves_sub_nodes. exact Hl.
+    + rewrite (Hid l Hleaf Eo). split; [lia | auto].
+Qed.
+
+Lemma replay_one_nodup s w s' :
+  NoDup (all_offsets (forest s)) -> replay_one s w = RCont s' -> nextFree s' = nextFree s ->
+  NoDup (all_offsets (forest s')).
+Proof.
+  intros Hn Hrep Hip. destruct (replay_one_inplace_shape s w s' Hn Hrep Hip) as [_ [E|(o & tg & [[Hlp _] _] & E)]]; rewrite E.
+  - exact Hn.
+  - rewrite mapF_offsets by exact Hlp. exact Hn.
+Qed.
+
+Lemma replay_one_free_le s0 w0 s2 : replay_one s0 w0 = RCont s2 -> nextFree s0 <= nextFree s2.
+Proof.
+  intros E2. unfold replay_one in E2.
+  destruct (find_node (w_page w0) (forest (bump_lsn s0 (w_lsn w0)))) as [[b n]|]; [|discriminate].
+  destruct (N.leb (w_lsn w0) (t_lsn n)); [inversion E2; subst; rewrite bump_nextFree; lia|].
+  destruct (w_op w0).
+  + destruct (negb b); [discriminate|]. rewrite bump_nextFree in E2.
+    destruct (tree_insert ML MI PS MV n (w_cell w0) (w_lsn w0) (w_val w0) (nextFree s0)) as [[t' nf]|e] eqn:Eti.
+    * assert (Hle : nextFree s0 <= nf).
+      { unfold tree_insert in Eti. destruct (key_exists _ n); [discriminate|].
+        destruct (negb _); [discriminate|]. destruct (Nat.ltb _ _); [discriminate|].
+        destruct (ins_right_offsets ML MI PS n (w_cell w0) (w_lsn w0) (w_val w0) (nextFree s0)) as (m & _ & Hf).
+        destruct (ins_right ML MI PS n _ _ _ _) as [[t1|a s b0] f]; cbn [snd] in Hf; inversion Eti; subst; pose proof PS_pos; lia. }
+      destruct (N.eqb (t_off t') (w_page w0)); [inversion E2; subst; exact Hle|].
+      match type of E2 with context [redo_root_move ?a ?b0 ?c ?d] =>
+        pose proof (redo_root_move_free a b0 c d) as Hrf; destruct (redo_root_move a b0 c d) as [s3 [u|e|]] end;
+        try discriminate.
+      inversion E2; subst s3. cbn [fst nextFree] in Hrf. lia.
+    * destruct e; try discriminate. inversion E2; subst. cbn [nextFree]. rewrite ?bump_nextFree. lia.
+  + destruct n; [|discriminate]. destruct (Nat.ltb _ _); [discriminate|]. destruct (existsb _ _); [|discriminate].
+    inversion E2; subst. cbn [set_forest nextFree]. rewrite ?bump_nextFree. lia.
+  + destruct n; [|discriminate]. destruct (existsb _ _); [|discriminate].
+    inversion E2; subst. cbn [set_forest nextFree]. rewrite ?bump_nextFree. lia.
+Qed.
+
+Lemma replay_free_le ws : forall s r, replay s ws = RCont r -> nextFree s <= nextFree r.
+Proof.
+  induction ws as [|w rest IH]; intros s r H.
+  - cbn in H. inversion H; subst. lia.
+  - cbn [replay] in H. destruct (replay_one s w) as [s1| | |] eqn:E; try discriminate.
+    pose proof (replay_one_free_le _ _ _ E). specialize (IH _ _ H). lia.
+Qed.
+
+(* an in-place replay: offsets stay distinct, the catalog root stays, leaves only move forward *)
+Lemma replay_inplace ws : forall s r,
+  NoDup (all_offsets (forest s)) -> replay s ws = RCont r -> nextFree r = nextFree s ->
+  NoDup (all_offsets (forest r)) /\ ptRoot r = ptRoot s /\
+  (fresh_run s ws -> leq_leaves (forest s) (forest r)).
+Proof.
+  induction ws as [|w rest IH]; intros s r Hn Hrep Hip.
+  - cbn in Hrep. inversion Hrep; subst. split; [exact Hn|]. split; [reflexivity|]. intros _. apply leq_leaves_refl.
+  - cbn [replay] in Hrep. destruct (replay_one s w) as [s1| | |] eqn:E1; try discriminate.
+    pose proof (replay_one_free_le s w s1 E1) as Hm1. pose proof (replay_free_le rest s1 r Hrep) as Hm2.
+    assert (Hip1 : nextFree s1 = nextFree s) by lia.
+    pose proof (replay_one_nodup s w s1 Hn E1 Hip1) as Hn1.
+    destruct (IH s1 r Hn1 Hrep (eq_trans Hip (eq_sym Hip1))) as (A & B & C).
+    destruct (replay_one_inplace_shape s w s1 Hn E1 Hip1) as [Hpt _].
+    split; [exact A|]. split; [congruence|]. intros Hfr. cbn [fresh_run] in Hfr. rewrite E1 in Hfr. destruct Hfr as [F1 F2].
+    eapply leq_leaves_trans; [eapply leq_leaves_step; eauto | apply C; exact F2].
+Qed.
+
+(* ---------- the final version of a leaf, looked up by offset ---------- *)
+Lemma fin_of_leaf R t l : NoDup (all_offsets R) -> In t R -> In l (leaves t) -> fin_of R (t_off l) = erase false l.
+Proof.
+  intros Hn Ht Hl. unfold fin_of.
+  destruct (find (fun x => N.eqb (t_off x) (t_off l)) (flat_map leaves R)) as [x|] eqn:E.
+  - apply find_some in E as [Hin Ho]. apply N.eqb_eq in Ho. apply in_flat_map in Hin as (t2 & Ht2 & Hx).
+    destruct (leaf_offset_unique R t2 t x l Hn Ht2 Ht Hx Hl Ho) as [_ ->]. reflexivity.
+  - exfalso. assert (Hin : In l (flat_map leaves R)) by (apply in_flat_map; eauto).
+    pose proof (find_none _ _ E l Hin) as Hf. cbn in Hf. rewrite N.eqb_refl in Hf. discriminate.
+Qed.
+
+Lemma has_key_erase k l : has_key k (erase false l) = has_key k l.
+Proof. unfold has_key. rewrite erase_leaf_cells. reflexivity. Qed.
+
+Lemma mono_of_leq W f R : NoDup (all_offsets R) -> leq_leaves f R -> Mono W (fin_of R) f.
+Proof.
+  intros Hn Hle t l Ht Hl _. destruct (Hle t l Ht Hl) as (t' & l' & A & B & C & D & E).
+  rewrite <- C, (fin_of_leaf R t' l' Hn A B), erase_lsn. split; [exact D|].
+  intros k Hk. rewrite has_key_erase. apply E. exact Hk.
+Qed.
+
+(* ====================== replaying on the mixed store ====================== *)
+Theorem torn_replay W ws : forall s g r,
+  NoDup (all_offsets (forest s)) -> replay s ws = RCont r -> nextFree r = nextFree s -> fresh_run s ws ->
+  forest g = mapF (mixfun W (fin_of (forest r))) (forest s) -> nextFree g = nextFree s ->
+  exists g', replay g ws = RCont g' /\ forest g' = mapF (mixfun W (fin_of (forest r))) (forest r) /\
+             nextFree g' = nextFree r.
+Proof.
+  induction ws as [|w rest IH]; intros s g r Hn Hrep Hip Hfr Hg Hnf.
+  - cbn in Hrep. inversion Hrep; subst. exists g. auto.
+  - cbn [replay] in Hrep. destruct (replay_one s w) as [s1| | |] eqn:E1; try discriminate.
+    pose proof (replay_one_free_le s w s1 E1) as Hm1. pose proof (replay_free_le rest s1 r Hrep) as Hm2.
+    assert (Hip1 : nextFree s1 = nextFree s) by lia.
+    pose proof (replay_one_nodup s w s1 Hn E1 Hip1) as Hn1.
+    cbn [fresh_run] in Hfr. rewrite E1 in Hfr. destruct Hfr as [F1 F2].
+    destruct (replay_inplace rest s1 r Hn1 Hrep (eq_trans Hip (eq_sym Hip1))) as (Hnr & _ & Hle).
+    pose proof (mono_of_leq W (forest s1) (forest r) Hnr (Hle F2)) as Hmono.
+    destruct (sim_step W (fin_of (forest r)) s g w s1 (fin_of_ok _) Hn Hg Hnf E1 Hip1 Hmono) as (g1 & Hr1 & Hg1 & Hnf1).
+    destruct (IH s1 g1 r Hn1 Hrep (eq_trans Hip (eq_sym Hip1)) F2 Hg1 Hnf1) as (g' & Hr' & Hg' & Hnf').
+    exists g'. cbn [replay]. rewrite Hr1. auto.
+Qed.
+
+(* ====================== the model's torn data file is such a mix ====================== *)
+Fixpoint merge_kids (W : list N) (a b : list (N * tree)) : option (list (N * tree)) :=
+  match a, b with
+  | [], [] => Some []
+  | (sa, ca) :: ra, (sb, cb) :: rb =>
+      if N.eqb sa sb then
+        match merge_tree W ca cb, merge_kids W ra rb with
+        | Some c, Some r => Some ((sa, c) :: r)
+        | _, _ => None
+        end
+      else None
+  | _, _ => None
+  end.
+
+Lemma merge_tree_node W od ld dd kd rd om lm dm km rm :
+  merge_tree W (TNode od ld dd kd rd) (TNode om lm dm km rm) =
+  if N.eqb od om && N.eqb ld lm && negb dm then
+    match merge_kids W kd km, merge_tree W rd rm with
+    | Some k, Some r => Some (TNode od ld false k r)
+    | _, _ => None
+    end
+  else None.
+Proof.
+  cbn [merge_tree]. destruct (N.eqb od om && N.eqb ld lm && negb dm); [|reflexivity].
+  assert (E : (fix go (a b : list (N * tree)) : option (list (N * tree)) :=
+                 match a, b with
+                 | [], [] => Some []
+                 | (sa, ca) :: ra, (sb, cb) :: rb =>
+                     if N.eqb sa sb then
+                       match merge_tree W ca cb, go ra rb with
+                       | Some c, Some r => Some ((sa, c) :: r)
+                       | _, _ => None
+                       end
+                     else None
+                 | _, _ => None
+                 end) kd km = merge_kids W kd km).
+  { revert km. induction kd as [|[sa ca] ra IH]; intros [|[sb cb] rb]; cbn [merge_kids]; try reflexivity.
+    rewrite IH. reflexivity. }
+  rewrite E. reflexivity.
+Qed.
+
+Lemma merge_tree_repl W R d : forall m g,
+  merge_tree W d m = Some g -> erase false d = d ->
+  (forall l, In l (leaves m) -> fin_of R (t_off l) = erase false l) ->
+  g = repl (mixfun W (fin_of R)) d.
+Proof.
+  induction d as [od ld dd cd hld hrd lsd rsd | od ld dd kd rd IHk IHr] using tree_ind2; intros m g Hm Hc Hfin.
+  - destruct m as [om lm dm cm hlm hrm lsm rsm|]; [|discriminate]. cbn [merge_tree] in Hm.
+    destruct (N.eqb_spec od om) as [E|]; [|discriminate]. inversion Hm; subst g om. clear Hm.
+    cbn [repl]. unfold mixfun, inW. cbn [t_off]. destruct (existsb (N.eqb od) W); [|reflexivity].
+    symmetry. exact (Hfin (TLeaf od lm dm cm hlm hrm lsm rsm) (or_introl eq_refl)).
+  - destruct m as [|om lm dm km rm]; [discriminate|]. rewrite merge_tree_node in Hm.
+    destruct (N.eqb od om && N.eqb ld lm && negb dm); [|discriminate].
+    destruct (merge_kids W kd km) as [k|] eqn:Ek; [|discriminate].
+    destruct (merge_tree W rd rm) as [r|] eqn:Er; [|discriminate]. inversion Hm; subst g. clear Hm.
+    rewrite erase_node in Hc. injection Hc as Hd Hkc Hrc. subst dd.
+    rewrite leaves_node in Hfin. rewrite repl_node. f_equal.
+    + clear Er Hrc IHr. revert km k Ek Hfin.
+      induction kd as [|[sa ca] ra IH]; intros [|[sb cb] rb] k Ek Hfin; cbn [merge_kids] in Ek; try discriminate.
+      * inversion Ek. reflexivity.
+      * destruct (N.eqb sa sb); [|discriminate].
+        destruct (merge_tree W ca cb) as [c|] eqn:Ec; [|discriminate].
+        destruct (merge_kids W ra rb) as [r0|] eqn:Er0; [|discriminate]. inversion Ek; subst k. clear Ek.
+        inversion IHk as [|? ? Hca Hra]; subst. cbn [snd] in Hca.
+        cbn [ekids map fst snd] in Hkc. injection Hkc as Hcc Hrc'.
+        cbn [rkids map fst snd]. f_equal.
+        -- f_equal. apply (Hca cb c Ec); [exact Hcc|].
+           intros l Hl. apply Hfin. cbn [kids_leaves flat_map snd]. rewrite <- app_assoc. apply in_or_app. left. exact Hl.
+        -- apply (IH Hra Hrc' rb r0 Er0).
+           intros l Hl. apply Hfin. cbn [kids_leaves flat_map snd]. rewrite <- app_assoc. apply in_or_app. right. exact Hl.
+    + apply (IHr rm r Er); [exact Hrc|]. intros l Hl. apply Hfin. apply in_or_app. right. exact Hl.
+Qed.
+
+Lemma merge_forest_mapF W R : forall df mf gf,
+  merge_forest W df mf = Some gf -> (forall t, In t df -> erase false t = t) ->
+  (forall t l, In t mf -> In l (leaves t) -> fin_of R (t_off l) = erase false l) ->
+  gf = mapF (mixfun W (fin_of R)) df.
+Proof.
+  induction df as [|a ra IH]; intros [|b rb] gf Hm Hc Hfin; cbn [merge_forest] in Hm; try discriminate.
+  - inversion Hm. reflexivity.
+  - destruct (merge_tree W a b) as [t|] eqn:Et; [|discriminate].
+    destruct (merge_forest W ra rb) as [r|] eqn:Er; [|discriminate]. inversion Hm; subst gf. cbn [mapF map]. f_equal.
+    + apply (merge_tree_repl W R a b t Et); [apply Hc; left; reflexivity|].
+      intros l Hl. apply (Hfin b l); [left; reflexivity | exact Hl].
+    + apply (IH rb r Er); [intros t0 Ht0; apply Hc; right; exact Ht0|].
+      intros t0 l Ht0 Hl. apply (Hfin t0 l); [right; exact Ht0 | exact Hl].
+Qed.
+
+(* the final versions are the same whether read from the cache or from the replayed store *)
+Lemma leaves_fclean f : flat_map leaves (fclean f) = map (erase false) (flat_map leaves f).
+Proof.
+  induction f as [|t f IH]; [reflexivity|]. cbn [fclean map flat_map]. rewrite map_app, erase_leaves. f_equal. exact IH.
+Qed.
+
+Lemma fin_of_fclean f g o : fclean f = fclean g -> fin_of f o = fin_of g o.
+Proof.
+  intros H.
+  assert (G : forall h, fin_of h o = match find (fun l => N.eqb (t_off l) o) (flat_map leaves (fclean h)) with
+                                    | Some l => l | None => default_leaf o end).
+  { intros h. unfold fin_of. rewrite leaves_fclean, find_map_off. destruct (find _ _); reflexivity. }
+  rewrite (G f), (G g), H. reflexivity.
+Qed.
+
+Lemma erase_repl_same el sg t :
+  lp sg -> (forall l, In l (leaves t) -> erase el (sg l) = erase el l) -> erase el (repl sg t) = erase el t.
+Proof.
+  intros Hlp. induction t as [off l d cells hl hr ls rs | off l d kids rgt IHk IHr] using tree_ind2; intros H.
+  - cbn [repl]. apply H. left. reflexivity.
+  - rewrite repl_node, !erase_node. rewrite leaves_node in H. f_equal.
+    + unfold ekids, rkids. rewrite map_kids_map.
+      apply (map_kids_ext (fun t => erase el (repl sg t)) (erase el)).
+      rewrite Forall_forall in *. intros sc Hsc. apply IHk; [exact Hsc|].
+      intros x Hx. apply H. apply in_or_app. left. unfold kids_leaves. apply in_flat_map. eauto.
+    + apply IHr. intros x Hx. apply H. apply in_or_app. right. exact Hx.
+Qed.
+
+Lemma fclean_mix_final W R : NoDup (all_offsets R) -> fclean (mapF (mixfun W (fin_of R)) R) = fclean R.
+Proof.
+  intros Hn. unfold fclean, mapF. rewrite map_map. apply map_ext_in. intros t Ht.
+  apply erase_repl_same; [apply lp_mix; apply fin_of_ok|].
+  intros l Hl. unfold mixfun. destruct (inW W (t_off l)); [|reflexivity].
+  rewrite (fin_of_leaf R t l Hn Ht Hl). apply erase_idem.
+Qed.
+
+(* replay never touches the catalog root field *)
+Lemma replay_one_ptRoot s w s' : replay_one s w = RCont s' -> ptRoot s' = ptRoot s.
+Proof.
+  unfold replay_one.
+  destruct (find_node (w_page w) (forest (bump_lsn s (w_lsn w)))) as [[b n]|]; [|discriminate].
+  destruct (N.leb (w_lsn w) (t_lsn n)); [intros H; inversion H; subst; apply bump_ptRoot|].
+  destruct (w_op w).
+  - destruct (negb b); [discriminate|].
+    destruct (tree_insert ML MI PS MV n (w_cell w) (w_lsn w) (w_val w) _) as [[t' nf]|e].
+    + destruct (N.eqb (t_off t') (w_page w)); [intros H; inversion H; subst; cbn [ptRoot]; apply bump_ptRoot|].
+      match goal with |- context [redo_root_move ?a ?b0 ?c ?d] =>
+        assert (Hp : ptRoot (fst (redo_root_move a b0 c d)) = ptRoot a)
+          by (unfold redo_root_move; repeat (break_match; cbn [fst]; try reflexivity));
+        destruct (redo_root_move a b0 c d) as [s2 [u|e|]] end; try discriminate.
+      intros H; inversion H; subst. cbn [fst ptRoot] in Hp. rewrite Hp. apply bump_ptRoot.
+    + destruct e; try discriminate. intros H; inversion H; subst. cbn [ptRoot]. apply bump_ptRoot.
+  - destruct n; [|discriminate]. destruct (Nat.ltb _ _); [discriminate|]. destruct (existsb _ _); [|discriminate].
+    intros H; inversion H; subst. cbn [set_forest ptRoot]. apply bump_ptRoot.
+  - destruct n; [|discriminate]. destruct (existsb _ _); [|discriminate].
+    intros H; inversion H; subst. cbn [set_forest ptRoot]. apply bump_ptRoot.
+Qed.
+
+Lemma replay_ptRoot ws : forall s r, replay s ws = RCont r -> ptRoot r = ptRoot s.
+Proof.
+  induction ws as [|w rest IH]; intros s r H.
+  - cbn in H. inversion H; reflexivity.
+  - cbn [replay] in H. destruct (replay_one s w) as [s1| | |] eqn:E; try discriminate.
+    rewrite (IH _ _ H). apply (replay_one_ptRoot _ _ _ E).
+Qed.
+
+(* ---------- records older than the data file are inert on the mixed store too ---------- *)
+Lemma replay_one_inert_mix W fin s d w :
+  fin_ok fin -> Good s -> Mono W fin (forest s) -> rec_inert s w ->
+  forest d = mapF (mixfun W fin) (forest s) -> nextLSN d = nextLSN s -> lastKey d = lastKey s ->
+  replay_one d w = RCont d.
+Proof.
+  intros Hfin [[Hw Hn Hk] _] Hmono (Hlt & b & n & Hpi & Hd) Hf Hnl Hlk.
+  pose proof (lp_mix W fin Hfin) as Hlp. set (sg := mixfun W fin) in *.
+  unfold replay_one. rewrite (bump_id d (w_lsn w)) by (rewrite Hnl; exact Hlt).
+  rewrite Hf, (find_node_complete (mapF sg (forest s)) (w_page w) b (repl sg n)).
+  2:{ rewrite mapF_offsets by exact Hlp. exact Hn. }
+  2:{ apply page_in_mapF; assumption. }
+  destruct Hpi as (t & Ht & Hin & Hp & Hb).
+  pose proof (repl_lsn_ge W fin (forest s) t n Hmono Ht Hin) as Hge. fold sg in Hge.
+  destruct (N.leb_spec (w_lsn w) (t_lsn (repl sg n))) as [_|Hgt]; [reflexivity|].
+  destruct Hd as [Hd|(Hop & -> & Hkey)]; [lia|]. rewrite Hop. cbn [negb].
+  rewrite Forall_forall in Hw, Hk. pose proof (Hw t Ht) as Wt.
+  assert (n = t).
+  { apply root_node_unique; [apply Wt | exact Hin |]. symmetry in Hb. apply N.eqb_eq in Hb. congruence. }
+  subst n. destruct Wt as [[h Hs] _ _ _].
+  pose proof (key_exists_stored t h 0 None _ Hs Hkey) as Hke.
+  rewrite (tree_insert_key_exists _ _ _ _ _ (key_exists_mix W fin (forest s) t _ Hfin Hmono Ht Hke)).
+  f_equal. rewrite <- Hf. apply keyup_id. rewrite Hlk.
+  specialize (Hk t Ht). rewrite Forall_forall in Hk. apply Hk. unfold tree_keys. apply in_or_app. right. exact Hkey.
+Qed.
+
+Lemma replay_inert_mix W fin s d log :
+  fin_ok fin -> Good s -> Mono W fin (forest s) -> LogInv s log ->
+  forest d = mapF (mixfun W fin) (forest s) -> nextLSN d = nextLSN s -> lastKey d = lastKey s ->
+  replay d log = RCont d.
+Proof.
+  intros Hfin G Hm HL Hf Hnl Hlk. induction HL as [|w r Hw _ IH]; [reflexivity|].
+  cbn [replay]. rewrite (replay_one_inert_mix W fin s d w Hfin G Hm Hw Hf Hnl Hlk). exact IH.
+Qed.
+
+(* ====================== C04, in-place case ====================== *)
+Theorem torn_recover W dsk m old new r fd :
+  Good dsk -> fclean (forest dsk) = forest dsk -> NoDup (all_offsets (forest m)) ->
+  LogInv dsk old -> replay dsk new = RCont r -> seq r m -> fresh_run dsk new ->
+  nextFree m = nextFree dsk -> ptRoot m = ptRoot dsk ->
+  merge_forest W (forest dsk) (forest m) = Some fd ->
+  exists g', replay (set_forest dsk fd) (old ++ new) = RCont g' /\ seq g' m.
+Proof.
+  intros Gd Hclean Hnm HLold Hrep [Sf Sp Sn] Hfresh Hnf Hpt Hmerge.
+  pose proof Gd as [[_ Hnd _] _].
+  assert (Hip : nextFree r = nextFree dsk) by congruence.
+  destruct (replay_inplace new dsk r Hnd Hrep Hip) as (Hnr & _ & Hle). specialize (Hle Hfresh).
+  set (fin := fin_of (forest r)).
+  assert (Hfd : fd = mapF (mixfun W fin) (forest dsk)).
+  { rewrite (merge_forest_mapF W (forest m) _ _ _ Hmerge).
+    - apply mapF_ext. intros l _. unfold mixfun, fin. destruct (inW W (t_off l)); [|reflexivity].
+      apply fin_of_fclean. symmetry. exact Sf.
+    - intros t Ht. unfold fclean in Hclean.
+      rewrite <- Hclean in Ht. apply in_map_iff in Ht as (t0 & <- & _). apply erase_idem.
+    - intros t l Ht Hl. apply (fin_of_leaf (forest m) t l); assumption. }
+  pose proof (mono_of_leq W (forest dsk) (forest r) Hnr Hle) as Hmono. fold fin in Hmono.
+  set (d := set_forest dsk fd).
+  assert (Hold : replay d old = RCont d).
+  { apply (replay_inert_mix W fin dsk d old (fin_of_ok _) Gd Hmono HLold); [exact Hfd | reflexivity | reflexivity]. }
+  destruct (torn_replay W new dsk d r Hnd Hrep Hip Hfresh Hfd eq_refl) as (g' & Hr' & Hg' & Hnf').
+  exists g'. split; [rewrite (replay_app d old new d Hold); exact Hr'|].
+  constructor.
+  - rewrite Hg'. unfold fin. rewrite (fclean_mix_final W (forest r) Hnr). exact Sf.
+  - rewrite (replay_ptRoot _ _ _ Hr'). cbn [d set_forest ptRoot]. congruence.
+  - congruence.
+Qed.
